@@ -47,8 +47,9 @@ var (
 	tsteps   [MaxTasks]uint64 // running task: steps executed by task
 	tbudget  uint64           // per-task step budget while scheduler active
 
-	stalls      uint64 // scheduled runs in which the running task blocked on another task
-	freeRun     bool   // after repeated stalls: tasks of later runs are released together
+	tgoid   [MaxTasks]int64 // goroutine id of task t, written by task t before its first grant
+	stalls  uint64          // scheduled runs in which the running task blocked on another task
+	freeRun bool            // after repeated stalls: tasks of later runs are released together
 
 	foreign     bool   // the code under test started a goroutine of its own during this run
 	foreignRuns uint64 // scheduled runs in which that happened
@@ -177,6 +178,9 @@ func NoYield(d int32) {
 }
 
 //go:norace
+func setGoid(t int) { tgoid[t] = curGoid() }
+
+//go:norace
 func park(t int) {
 	g := grant[t]
 	ack[t] = g
@@ -220,6 +224,7 @@ func Run(bodies []func(), list []SwitchEntry, taskBudget uint64) SchedResult {
 	for t := 0; t < n; t++ {
 		t := t
 		go func() {
+			setGoid(t)
 			waitFirstGrant(t)
 			bodies[t]()
 			finish(t)
@@ -256,32 +261,107 @@ func reset(n int, taskBudget uint64) {
 //go:norace
 func deactivate() { active = false; tbudget = 0 }
 
-// stallLimit: how long the scheduler waits for the task it released.  A task
-// on this workload runs for milliseconds; only a task that is blocked on a
-// parked one takes longer.
-const stallLimit = 4 * time.Second
+// stallCheckEvery: how often the scheduler, while waiting for the task it
+// released, asks the runtime what that task's goroutine is doing.  A task on
+// this workload runs for milliseconds, so the question is rare.
+const stallCheckEvery = 1 * time.Second
 
+// awaitAck waits until task t has parked or finished.  It returns false when
+// t's goroutine is BLOCKED inside the code under test (channel operation,
+// semaphore, condition variable, sleep): nothing but a parked task could wake
+// it.  A goroutine that is merely slow (runnable, starved by machine load) is
+// waited for indefinitely; the worker's wall-clock watchdog covers real hangs.
+//
 //go:norace
 func awaitAck(t int, g uint64) bool {
-	var start time.Time
+	var last time.Time
 	for spins := 1; ack[t] != g; spins++ {
 		runtime.Gosched()
 		if spins%4096 == 0 {
-			if start.IsZero() {
-				start = time.Now()
-			} else if time.Since(start) > stallLimit {
-				return false
+			now := time.Now()
+			if last.IsZero() {
+				last = now
+			} else if now.Sub(last) > stallCheckEvery {
+				last = now
+				if goroutineBlocked(tgoid[t]) && ack[t] != g {
+					return false
+				}
 			}
 		}
 	}
 	return true
 }
 
+// goroutineBlocked asks the runtime for all goroutine headers and reports
+// whether goroutine id is in a waiting state.
+//
+//go:norace
+func goroutineBlocked(id int64) bool {
+	if id == 0 {
+		return false
+	}
+	buf := make([]byte, 1<<20)
+	n := runtime.Stack(buf, true)
+	want := "goroutine " + itoa(id) + " ["
+	txt := string(buf[:n])
+	i := index(txt, want)
+	if i < 0 {
+		return false
+	}
+	state := txt[i+len(want):]
+	if j := index(state, "]"); j >= 0 {
+		state = state[:j]
+	}
+	for _, w := range []string{"chan receive", "chan send", "select", "semacquire", "sync.", "sleep", "IO wait", "finalizer wait"} {
+		if len(state) >= len(w) && state[:len(w)] == w {
+			return true
+		}
+	}
+	return false // running, runnable, syscall, ...: not blocked, only slow
+}
+
+func itoa(v int64) string {
+	if v == 0 {
+		return "0"
+	}
+	var b [20]byte
+	i := len(b)
+	for v > 0 {
+		i--
+		b[i] = byte('0' + v%10)
+		v /= 10
+	}
+	return string(b[i:])
+}
+
+func index(s, sub string) int {
+	for i := 0; i+len(sub) <= len(s); i++ {
+		if s[i:i+len(sub)] == sub {
+			return i
+		}
+	}
+	return -1
+}
+
+//go:norace
+func curGoid() int64 {
+	var buf [64]byte
+	n := runtime.Stack(buf[:], false)
+	var id int64
+	for _, c := range buf[len("goroutine "):n] {
+		if c < '0' || c > '9' {
+			break
+		}
+		id = id*10 + int64(c-'0')
+	}
+	return id
+}
+
 //go:norace
 func releaseAll(n int) {
 	foreign = true // nobody parks any more
 	stalls++
-	if stalls >= 2 {
+	if stalls >= 3 {
 		freeRun = true
 	}
 	for i := 0; i < n; i++ {
